@@ -146,4 +146,87 @@ theorem runC_ops (c : Config) (s : State) (ops : List (Op × Nat)) :
     obtain ⟨op, t⟩ := x
     simp only [List.map_cons, runC_cons, run_cons, stepC, Event.lift, ih]
 
+/-! ### `set_format` with another number of lines (D39): what `_overwrite` sends, read on a terminal with rows -/
+
+/-- ANSI output: the writes of the repaired `_overwrite` are CR, cursor up by the line count of the
+frame STANDING there, erase-below iff the new format has another line count, the padded lines -/
+theorem overwrite_ansi_writes (c : Config) (s : State) (t : Nat) (msg : Str) (hk : c.kind = .ansi)
+    (hq : c.quiet = false) :
+    (overwriteWith true c s t msg).2 =
+      ansiWrites (s.displayedLineCount.getD s.formatLineCount)
+        (decide (s.displayedLineCount.getD s.formatLineCount ≠ s.formatLineCount))
+        ((splitNL msg).map (ljust s.lastLen)) := by
+  unfold overwriteWith ansiWrites moveCount
+  simp only [hk, emit, hq]
+  by_cases h0 : s.displayedLineCount.getD s.formatLineCount = 0 <;>
+    by_cases h1 : s.displayedLineCount.getD s.formatLineCount = s.formatLineCount <;>
+    simp [h0, h1]
+
+/-- ... before the repair: cursor up by the line count of the format in use NOW, never an erase -/
+theorem overwrite_ansi_writes_old (c : Config) (s : State) (t : Nat) (msg : Str) (hk : c.kind = .ansi)
+    (hq : c.quiet = false) :
+    (overwriteWith false c s t msg).2 =
+      ansiWrites s.formatLineCount false ((splitNL msg).map (ljust s.lastLen)) := by
+  unfold overwriteWith ansiWrites moveCount
+  simp only [hk, emit, hq]
+  by_cases h0 : s.formatLineCount = 0 <;> simp [h0]
+
+/-- section output: the number of content lines cleared goes by the frame standing there -/
+theorem overwrite_section_clears (c : Config) (s : State) (t : Nat) (msg : Str) (hk : c.kind = .section) :
+    (overwriteWith true c s t msg).2 =
+      (secClear c s (((splitNL msg).map (ljust s.lastLen)).length / c.termWidth +
+        s.displayedLineCount.getD s.formatLineCount + 1)).2 ++
+      (secWrite c (secClear c s (((splitNL msg).map (ljust s.lastLen)).length / c.termWidth +
+        s.displayedLineCount.getD s.formatLineCount + 1)).1 (joinNL ((splitNL msg).map (ljust s.lastLen)))).2 := by
+  unfold overwriteWith moveCount
+  simp [hk]
+
+theorem overlayAt_blank (txt : Str) : overlayAt [] 0 txt = txt := by
+  simp [overlayAt, ljust, spaces]
+
+/-- moving up over the `n` rows of the standing frame that are above the cursor row reaches its top
+row; the rows above the frame are not touched -/
+theorem Scr.up_frame : ∀ (n : Nat) (frameAbove rest : List Str) (cur : Str) (col : Nat) (below : List Str),
+    frameAbove.length = n →
+    ∃ cur' below', Scr.up n ⟨frameAbove ++ rest, cur, col, below⟩ = ⟨rest, cur', col, below'⟩
+  | 0, fa, rest, cur, col, below, h => by
+    have : fa = [] := List.length_eq_zero_iff.1 h
+    subst this
+    exact ⟨cur, below, rfl⟩
+  | n + 1, [], rest, cur, col, below, h => by simp at h
+  | n + 1, a :: fa, rest, cur, col, below, h => by
+    have hn : fa.length = n := by simpa using h
+    obtain ⟨c', b', hc⟩ := Scr.up_frame n fa rest a col (cur :: below) hn
+    exact ⟨c', b', by simp only [List.cons_append, Scr.up]; exact hc⟩
+
+theorem Scr.lineStep_erased (ab : List Str) (c0 : Str) (k : Nat) (l : Str) :
+    Scr.lineStep ⟨ab, c0, k, []⟩ l = ⟨c0 :: ab, l, l.length, []⟩ := by
+  simp [Scr.lineStep, Scr.nl, Scr.puts, overlayAt_blank]
+
+/-- lines written below an erased position stand there exactly -/
+theorem Scr.foldl_lines (ls : List Str) : ∀ (ab : List Str) (c0 : Str) (k : Nat),
+    (ls.foldl Scr.lineStep ⟨ab, c0, k, []⟩).rows = ab.reverse ++ c0 :: ls ∧
+    (ls.foldl Scr.lineStep ⟨ab, c0, k, []⟩).below = [] := by
+  induction ls with
+  | nil => intro ab c0 k; simp [Scr.rows]
+  | cons l rest ih =>
+    intro ab c0 k
+    rw [List.foldl_cons, Scr.lineStep_erased]
+    have := ih (c0 :: ab) l l.length
+    refine ⟨by rw [this.1]; simp, this.2⟩
+
+/-- **No residue when the line count changes.**  A frame with `n` rows above the cursor row stands
+on the terminal (below whatever the application printed before, `rest`); a redraw that moves up by
+`n` and erases leaves exactly the lines of the new frame under `rest` and nothing below - however
+many lines either frame has. -/
+theorem Scr.redraw_erased (n : Nat) (frameAbove rest : List Str) (cur : Str) (col : Nat) (below : List Str)
+    (hn : frameAbove.length = n) (l : Str) (ls : List Str) :
+    (Scr.redraw ⟨frameAbove ++ rest, cur, col, below⟩ n true (l :: ls)).rows =
+      rest.reverse ++ (l :: ls) ∧
+    (Scr.redraw ⟨frameAbove ++ rest, cur, col, below⟩ n true (l :: ls)).below = [] := by
+  obtain ⟨c', b', hup⟩ := Scr.up_frame n frameAbove rest cur 0 below hn
+  simp only [Scr.redraw, Scr.cr, hup, if_true, Scr.eraseDown, List.take_zero, Scr.putLines, Scr.puts,
+    overlayAt_blank, Nat.zero_add]
+  exact Scr.foldl_lines ls rest l l.length
+
 end Clikit.Progress
